@@ -534,10 +534,10 @@ def run(ctx):
         want = [[]]
         for l in lists:
             want = [w + [x] for w in want for x in l]
-        got = [tuple(t[k] for k in spec) for t in tasks]
-        if sorted(map(repr, got)) != sorted(repr(tuple(w)) for w in want) or \
-                any(list(t.keys()) != list(spec.keys()) for t in tasks):
+        if any(list(t.keys()) != list(spec.keys()) for t in tasks) or \
+                sorted(repr(tuple(t[k] for k in spec)) for t in tasks) != sorted(repr(tuple(w)) for w in want):
             fail(idx, "C19/product/enumeration", "tasks are not every combination exactly once")
+            continue
         if [opm.get_task(i).options for i in range(opm.ntasks)] != tasks:
             fail(idx, "C19/get_task", "get_task(i).options differs from tasks[i]")
         # find: every value of one option, plus an absent value
